@@ -108,3 +108,19 @@ def sticky_parser_mode(finding, replay, facts):
 
 
 MATCHERS['sticky_parser_mode'] = sticky_parser_mode
+
+
+def eq_circular_in(finding, replay, facts):
+  """C11: the = form of a program is rejected with the 'circular dependency of In calls'
+  diagnostic while the == form compiles; requires an `in` and an injected callee sharing an
+  assigned variable name with the caller."""
+  import re
+  if replay.get('kind') != 'one side rejected' or 'sugar_eq' not in (replay.get('label') or ''):
+    return False
+  if 'circular dependency of' not in (replay.get('why') or ''):
+    return False
+  b = replay.get('program_b', '')
+  return ' in [' in b and bool(re.search(r"\b(\w+) = ", b))
+
+
+MATCHERS['eq_circular_in'] = eq_circular_in
